@@ -87,9 +87,12 @@ CLAIMED = {
  "C01": ("Theorems for all terms (literals, variables, proper/improper lists, compounds), all prior substitutions and all fuel: on success "
          "the solutions of the answer are exactly the unifiers consistent with the prior bindings (soundness, most general), the answer "
          "extends the prior substitution by the reported extension; on failure no consistent unifier exists (clashes, arity, occurs check by a "
-         "size argument). Fuel exhaustion is a third, separate outcome.",
-         "6/C01", "Coq proof: solution-set characterisation of unification (sound, most general, complete) + exhaustive small-scope differential correspondence",
-         "Not proved: success implies that a finite unifier exists (acyclicity/idempotent closure of the answer) and fuel adequacy; both are observed on every case (walk* of both sides finite and identical)."),
+         "size argument). From an acyclic prior substitution the answer is acyclic, has the finite-tree solution `solve s'` which unifies both "
+         "sides, is idempotent, and of which every consistent unifier is an instance (idempotent mgu; success implies a finite unifier); the "
+         "walk loop terminates within the model's fuel. Every substitution in every state of every stream of every elaborated goal is "
+         "acyclic (all four state operations preserve it, lifted over the search). Depth-fuel exhaustion is a third, separate outcome.",
+         "6/C01", "Coq proof: solution-set characterisation of unification, idempotent mgu from acyclic substitutions, acyclicity as an invariant of the whole search + exhaustive small-scope differential correspondence",
+         "Depth fuel (term recursion, 4000) adequacy is not proved: a term deeper than that gives the separate out-of-fuel outcome in the model (a stack overflow in Rust). The reification step's fresh any-variables are outside the acyclicity invariant (nothing consumes reified states)."),
  "C02": ("Theorems: posting u != v stores a constraint that holds exactly when u and v differ (or nothing / failure in the two decided "
          "cases); re-checking after a unification keeps an equivalent constraint, drops only satisfied ones and fails only on violated "
          "ones; subsumption is implication; normalisation preserves the meaning of the store; the store's meaning is order-free. WHOLE "
